@@ -2,6 +2,7 @@ package main
 
 import (
 	"fmt"
+	"os"
 	"go/ast"
 	"go/token"
 	"go/types"
@@ -246,6 +247,7 @@ func (e *Engine) globalPtr(g *ssa.Global) PtrV {
 			switch x := v.(type) {
 			case IfaceV:
 				tmp.assume(Not(x.Sym.Nil))
+				e.globalRefs = append(e.globalRefs, x.Sym.Ref.VarName())
 			case PtrV:
 				tmp.assume(Not(x.Nil))
 			}
@@ -382,6 +384,9 @@ func (e *Engine) run(fr *Frame, st *State, b *ssa.BasicBlock, idx int, prev *ssa
 				return nil
 			case *ssa.Call:
 				outs := e.doCall(fr, st, x.Common(), ins, x)
+				if len(outs) == 0 && os.Getenv("TQV_DEBUG") != "" {
+					fmt.Fprintf(os.Stderr, "path ends at call %s in %s (%s)\n", calleeName(x.Common()), funcKey(fr.fn), e.posStr(ins.Pos()))
+				}
 				if len(outs) == 1 && outs[0].st == st {
 					if x.Type() != nil {
 						fr.env[x] = tupleOrSingle(outs[0].results, x)
